@@ -32,24 +32,26 @@ pub enum Node {
     Number(i64),
 }
 
-fn gcd(expr1: i64, expr2: i64) -> i64 {
+fn gcd(expr1: i64, expr2: i64) -> Option<i64> {
     let mut a = expr1;
     let mut b = expr2;
     while b != 0 {
         #[cfg(feature = "verif_hooks")]
         crate::verif_hooks::tick(crate::verif_hooks::Point::EvalLoop);
-        let remainder = a % b;
-        a = expr2;
+        let remainder = a.wrapping_rem(b);
+        a = b;
         b = remainder;
     }
-    a.abs()
+    a.checked_abs()
 }
 
-fn lcm(expr1: i64, expr2: i64) -> i64 {
+fn lcm(expr1: i64, expr2: i64) -> Option<i64> {
     if expr1 == 0 || expr2 == 0 {
-        return 0;
+        return Some(0);
     }
-    (expr1 / gcd(expr1, expr2) * expr2).abs()
+    (expr1 / gcd(expr1, expr2)?)
+        .checked_mul(expr2)?
+        .checked_abs()
 }
 
 pub fn eval(expr: Node) -> Result<i64, Box<dyn error::Error>> {
@@ -167,9 +169,10 @@ pub fn eval(expr: Node) -> Result<i64, Box<dyn error::Error>> {
                     #[cfg(feature = "verif_hooks")]
                     crate::verif_hooks::tick(crate::verif_hooks::Point::EvalLoop);
                     let right_art = eval(arg)?;
-                    result = result
-                        .map(|left_arg| Some(gcd(left_arg, right_art)))
-                        .unwrap_or(Some(right_art));
+                    result = match result {
+                        Some(left_arg) => Some(gcd(left_arg, right_art).ok_or("Integer overflow")?),
+                        None => Some(right_art),
+                    };
                 }
                 Ok(result.unwrap())
             } else {
@@ -186,9 +189,10 @@ pub fn eval(expr: Node) -> Result<i64, Box<dyn error::Error>> {
                     #[cfg(feature = "verif_hooks")]
                     crate::verif_hooks::tick(crate::verif_hooks::Point::EvalLoop);
                     let right_art = eval(arg)?;
-                    result = result
-                        .map(|left_arg| Some(lcm(left_arg, right_art)))
-                        .unwrap_or(Some(right_art));
+                    result = match result {
+                        Some(left_arg) => Some(lcm(left_arg, right_art).ok_or("Integer overflow")?),
+                        None => Some(right_art),
+                    };
                 }
                 Ok(result.unwrap())
             } else {
